@@ -280,6 +280,9 @@ impl Driver {
             let jops = core.disk.journal_from(j0);
             ev["jn"] = json!(jops.len());
             ev["leak"] = leak_scan(&core.disk.images());
+            if let Some(js) = crate::checks::js_records(core) {
+                ev["js"] = js;
+            }
             let nops = (core.disk.ops() - o0) as usize;
             self.rec.count("calls", 1);
             self.rec.count("storage_ops", nops as u64);
